@@ -206,11 +206,9 @@ func (c *Conn) waitCloseHandshake() error {
 	}
 	defer c.readUnlock()
 
-	for i := int64(0); i < c.msgReader.payloadLength; i++ {
-		_, err := c.br.ReadByte()
-		if err != nil {
-			return err
-		}
+	err = c.discardFramePayload(ctx, c.msgReader.payloadLength)
+	if err != nil {
+		return err
 	}
 
 	for {
@@ -219,13 +217,27 @@ func (c *Conn) waitCloseHandshake() error {
 			return err
 		}
 
-		for i := int64(0); i < h.payloadLength; i++ {
-			_, err := c.br.ReadByte()
-			if err != nil {
-				return err
-			}
+		err = c.discardFramePayload(ctx, h.payloadLength)
+		if err != nil {
+			return err
 		}
 	}
+}
+
+// discardFramePayload reads and discards n bytes of frame payload bounded by ctx.
+func (c *Conn) discardFramePayload(ctx context.Context, n int64) error {
+	for n > 0 {
+		b := c.readControlBuf[:]
+		if int64(len(b)) > n {
+			b = b[:n]
+		}
+		_, err := c.readFramePayload(ctx, b)
+		if err != nil {
+			return err
+		}
+		n -= int64(len(b))
+	}
+	return nil
 }
 
 func (c *Conn) waitGoroutines() error {
